@@ -81,6 +81,17 @@ def run(ctx):
             ctx.count("skipped: bool / empty operation")
             continue
         o = common.load_tree(d)
+        if rng.random() < 0.2:
+            # history: the tree was named once already (an earlier search), then embedded in a larger query which is
+            # named as a whole -- what a first naming left on the nodes must not leak into the second one
+            # (seeded C16-G: names already on a node kept, so two elements end up with one name)
+            I.naming.auto_name(o)
+            sib = T.Word(rng.choice(["lang", "en", "x"]))
+            opc = rng.choice([T.AndOperation, T.OrOperation, T.UnknownOperation])
+            inner = T.Group(o) if isinstance(o, T.BaseOperation) or rng.random() < 0.5 else o
+            o = opc(inner, sib) if rng.random() < 0.7 else opc(sib, inner)
+            d = common.dump_tree(o)
+            ctx.count("history: a tree named before, embedded and named again")
         name_to_path = I.naming.auto_name(o)
         named = common.dump_tree(o)
         nodes = dict(common.tree_nodes(named))
@@ -120,7 +131,12 @@ def run(ctx):
             other = set(cover) - matching
             # the documented way from names (as Elasticsearch reports them) to the two path sets
             inv = {tuple(v): k for k, v in name_to_path.items()}
-            names_hit = [inv[p] for p in sorted(matching)]
+            # the names the search engine reports are the ones carried by the elements themselves
+            names_hit = [I.naming.get_name(I.naming.element_from_path(o, p)) for p in sorted(matching)]
+            if names_hit != [inv[p] for p in sorted(matching)]:
+                ctx.fail("the name carried by an element is not the name the mapping gives to its path",
+                         {"tree": named, "carried": names_hit, "mapping": {k: list(v) for k, v in name_to_path.items()}})
+                continue
             try:
                 m2, o2_ = I.naming.matching_from_names(names_hit, name_to_path)
                 if {tuple(x) for x in m2} != set(matching) or {tuple(x) for x in o2_} != set(other):
